@@ -1,4 +1,4 @@
-CONSTANTS H = 2 W = 3 FixMarks = TRUE FixWide = TRUE AllowAmbiguous = FALSE
+CONSTANTS H = 2 W = 3 FixMarks = TRUE FixWide = TRUE FixDamage = TRUE AllowAmbiguous = FALSE
 Alphabet <- AImg
 INIT Init
 NEXT Next
